@@ -21,6 +21,6 @@ else
     (cd "$SCR" && patch -s -p1 < "$1") || exit 3; shift
 fi
 for P in "$@"; do
-    VERIF_REPO_SRC="$SCR/src" VERIF_SCRATCH_OUT="$SCR/out" ./check "$P" --tier "${TIER:-quick}" | tail -4
+    VERIF_REPO_SRC="$SCR/src" VERIF_SCRATCH_OUT="$SCR/out" ./check "$P" --tier "${TIER:-quick}" | tail -${TAILN:-4}
     echo "exit=$? ($P)"
 done
